@@ -203,7 +203,7 @@ def small_pairs(ctx):
         pairs += [(a, b) for a in u for b in u]
     if ctx.thorough:
         return pairs
-    return ctx.rng.sample(pairs, 2500)
+    return ctx.rng.sample(pairs, 3000)
 
 
 def random_pairs(ctx, n):
@@ -314,7 +314,7 @@ def replay_witnesses(ctx):
 def run(ctx):
     pairs = small_pairs(ctx)
     ctx.count("pairs:small_universe", len(pairs))
-    rnd = random_pairs(ctx, 40000 if ctx.thorough else 5000)
+    rnd = random_pairs(ctx, 40000 if ctx.thorough else 7000)
     ctx.count("pairs:random_and_edit", len(rnd))
     cases_model, cases_spec, cases_specs = [], [], []
     for i, (t1, t2) in enumerate(pairs + rnd):
